@@ -201,7 +201,7 @@ func rewrite(path, relDir string, counts map[string]int) ([]byte, error) {
 		if !ok {
 			return true
 		}
-		if p, name, ok := pkgSel(se); ok && p == "sync" && (name == "Mutex" || name == "RWMutex" || name == "Pool" || name == "Map") {
+		if p, name, ok := pkgSel(se); ok && p == "sync" && (name == "Mutex" || name == "RWMutex" || name == "Pool" || name == "Map" || name == "Once") {
 			se.X = ast.NewIdent("simhook")
 			used = true
 			removedUse["sync"] = true
@@ -320,6 +320,36 @@ func initAssigned(dir string) map[string]bool {
 	return m
 }
 
+// localFuncs maps the names of a directory's top-level functions to their source text.
+var localFuncsCache = map[string]map[string]string{}
+
+func localFuncs(dir string) map[string]string {
+	if m, ok := localFuncsCache[dir]; ok {
+		return m
+	}
+	m := map[string]string{}
+	localFuncsCache[dir] = m
+	ents, _ := os.ReadDir(dir)
+	fset := token.NewFileSet()
+	for _, e := range ents {
+		if e.IsDir() || !strings.HasSuffix(e.Name(), ".go") || strings.HasSuffix(e.Name(), "_test.go") {
+			continue
+		}
+		f, err := parser.ParseFile(fset, filepath.Join(dir, e.Name()), nil, 0)
+		if err != nil {
+			continue
+		}
+		for _, d := range f.Decls {
+			if fd, ok := d.(*ast.FuncDecl); ok && fd.Recv == nil && fd.Body != nil {
+				var b bytes.Buffer
+				format.Node(&b, fset, fd)
+				m[fd.Name.Name] = b.String()
+			}
+		}
+	}
+	return m
+}
+
 // resetStmts returns Go statements that put the file's package-level variables back to their
 // initial values, for the kinds of variable where that is plainly what a fresh process would
 // hold: constructor calls of caches/maps, composite literals, literals, and zero values.
@@ -355,6 +385,13 @@ func resetStmts(fset *token.FileSet, f *ast.File, path string, counts map[string
 			if id, ok := x.Fun.(*ast.Ident); ok && (id.Name == "make" || id.Name == "new") {
 				return true
 			}
+			// a constructor of the package itself, called without arguments (what a fresh process
+			// would call at start-up), unless it registers something process-wide
+			if id, ok := x.Fun.(*ast.Ident); ok && len(x.Args) == 0 {
+				if src, ok := localFuncs(filepath.Dir(path))[id.Name]; ok && !strings.Contains(src, "prometheus") && !strings.Contains(src, "Register") && !strings.Contains(src, "flag.") && !strings.Contains(src, "os.") {
+					return true
+				}
+			}
 			if se, ok := x.Fun.(*ast.SelectorExpr); ok {
 				if id, ok := se.X.(*ast.Ident); ok && id.Name == "cache" && se.Sel.Name == "New" {
 					return true
@@ -362,6 +399,35 @@ func resetStmts(fset *token.FileSet, f *ast.File, path string, counts map[string
 			}
 		}
 		return false
+	}
+	// method calls that an init() function of this very file makes on a package-level variable
+	// (`c.OnEvicted(f)`): a variable that is put back is configured again the same way
+	setup := map[string][]string{}
+	for _, d := range f.Decls {
+		fd, ok := d.(*ast.FuncDecl)
+		if !ok || fd.Recv != nil || fd.Name.Name != "init" || fd.Body == nil {
+			continue
+		}
+		for _, st := range fd.Body.List {
+			es, ok := st.(*ast.ExprStmt)
+			if !ok {
+				continue
+			}
+			ce, ok := es.X.(*ast.CallExpr)
+			if !ok {
+				continue
+			}
+			se, ok := ce.Fun.(*ast.SelectorExpr)
+			if !ok {
+				continue
+			}
+			if id, ok := se.X.(*ast.Ident); ok {
+				src := show(st)
+				if !strings.Contains(src, "prometheus") && !strings.Contains(src, "Register") {
+					setup[id.Name] = append(setup[id.Name], src)
+				}
+			}
+		}
 	}
 	var sb strings.Builder
 	for _, d := range f.Decls {
@@ -401,6 +467,10 @@ func resetStmts(fset *token.FileSet, f *ast.File, path string, counts map[string
 						fmt.Fprintf(&sb, "\t\t{\n\t\t\tvar z %s = %s\n\t\t\t%s = z\n\t\t}\n", typ, v, n.Name)
 					} else {
 						fmt.Fprintf(&sb, "\t\t%s = %s\n", n.Name, v)
+					}
+					for _, st := range setup[n.Name] {
+						fmt.Fprintf(&sb, "\t\t%s\n", st)
+						counts["reset.setup"]++
 					}
 					counts["reset.var"]++
 				case len(vs.Values) == 0 && typ != "":
